@@ -253,8 +253,28 @@ def _slice_loop(ctx, fn, loop, payload, step_ok_msg):
     return {"i": i, "j": j, "S": S, "n": n_name, "done": done}
 
 
-def rule_fragment_loops(ctx):
-    ctx.rule("C01.3-fragment-and-chop-loops")
+def _rsv_values(ctx, fn, expr):
+    """Value of an rsv= argument for sendCompressed in (False, True), through single-definition locals."""
+    from .common import eval_finite
+    if expr is None:
+        return None
+    try:
+        arr = eval_finite(ctx.program, fn, expr, {"sendCompressed": np.array([False, True])}, 2)
+        return [int(x) for x in arr]
+    except AnalysisError:
+        return None
+
+
+def _rsv_is_compress_bit(ctx, fn, expr):
+    return _rsv_values(ctx, fn, expr) == [0, 4]
+
+
+def _rsv_is_zero(ctx, fn, expr):
+    return _rsv_values(ctx, fn, expr) == [0, 0]
+
+
+def rule_fragment_loops(ctx, rule_id="C01.3-fragment-and-chop-loops"):
+    ctx.rule(rule_id)
     an = get_analysis(ctx)
     # --- sendMessage -----------------------------------------------------------------
     fn = ctx.program.func(f"{WSP}.sendMessage")
@@ -281,14 +301,14 @@ def rule_fragment_loops(ctx):
                    f"fin={norm.text(finv) if finv is not None else None}", fn.loc(c))
             if first is True:
                 ctx.ob("sendMessage: first fragment carries the message opcode", op is not None and norm.text(op) == "opcode", f"opcode={norm.text(op) if op else None}", fn.loc(c))
-                ctx.ob("sendMessage: RSV1 on the first fragment iff compressed", rsvv is not None and norm.text(rsvv) == "4 if sendCompressed else 0",
+                ctx.ob("sendMessage: RSV1 on the first fragment iff compressed", _rsv_is_compress_bit(ctx, fn, rsvv),
                        f"rsv={norm.text(rsvv) if rsvv is not None else None}", fn.loc(c))
                 ctx.ob("sendMessage: `first` cleared after the first fragment",
                        g.always_followed_by(n, lambda x: x.kind == "stmt" and isinstance(x.ast, ast.Assign) and norm.text(x.ast.targets[0]) == "first" and norm.text(x.ast.value) == "False",
                                             exits=[loopnode]), "first fragment flag not reset", fn.loc(c))
             elif first is False:
                 ctx.ob("sendMessage: continuation fragments use opcode 0", op is not None and norm.key(op, res) == ("c", 0), f"opcode={norm.text(op) if op else None}", fn.loc(c))
-                ctx.ob("sendMessage: no RSV bits on continuation fragments", rsvv is None or norm.key(rsvv, res) == ("c", 0), f"rsv={norm.text(rsvv) if rsvv is not None else None}", fn.loc(c))
+                ctx.ob("sendMessage: no RSV bits on continuation fragments", rsvv is None or _rsv_is_zero(ctx, fn, rsvv), f"rsv={norm.text(rsvv) if rsvv is not None else None}", fn.loc(c))
             else:
                 ctx.ob("sendMessage: fragment site under first/not-first test", False, "sendFrame in the loop not keyed on `first`", fn.loc(c))
     # unfragmented path
@@ -296,7 +316,7 @@ def rule_fragment_loops(ctx):
     ctx.require(len(single) == 1, "sendMessage: unfragmented sendFrame site not found")
     n, c = single[0]
     ok = norm.text(kwarg(c, "opcode")) == "opcode" and norm.text(kwarg(c, "payload")) == "payload" and kwarg(c, "fin") is None and \
-        norm.text(kwarg(c, "rsv")) == "4 if sendCompressed else 0"
+        _rsv_is_compress_bit(ctx, fn, kwarg(c, "rsv"))
     ctx.ob("sendMessage: unfragmented frame = (opcode, whole payload, FIN default, RSV1 iff compressed)", ok, stmt_key(c), fn.loc(c))
     opc = [s for s in walk_no_defs(fn.node) if _is_assign(s, "opcode")]
     okop = len(opc) == 2
@@ -385,8 +405,8 @@ def rule_buffer_splits(ctx):
         ctx.ob(f"{q}: remaining buffered octets are consumed", len(cs) == 1, "consumeData() call for the leftover bytes missing", f2.loc())
 
 
-def rule_send_queue(ctx):
-    ctx.rule("C01.5-send-queue-fifo")
+def rule_send_queue(ctx, rule_id="C01.5-send-queue-fifo"):
+    ctx.rule(rule_id)
     an = get_analysis(ctx)
     uses = []
     for f in [x for x in ctx.program.all_functions() if not is_test_module(x.module.name)]:
@@ -503,3 +523,5 @@ def run(ctx):
     rule_buffer_splits(ctx)
     rule_send_queue(ctx)
     rule_adapters(ctx)
+    from .c02 import rule_progress
+    rule_progress(ctx, "C01.7-complete-frames-need-no-further-octets")
